@@ -222,7 +222,7 @@ def check_main(prop, tier, base, runs=None, workers=None, wall=None):
     ev["wall_s"] = round(time.time() - t0, 2)
     if ev["wall_s"] > 0:
         ev["coverage"]["runs_per_hour"] = int(ev["coverage"]["evaluations"] * 3600 / ev["wall_s"])
-    if status != 2:
+    if status != 2 and not os.environ.get("VERIF_NO_EVIDENCE"):
         os.makedirs(os.path.join(VERIF, "evidence"), exist_ok=True)
         with open(os.path.join(VERIF, "evidence", "%s.json" % prop), "w") as f:
             json.dump(ev, f, indent=1, sort_keys=True)
@@ -282,10 +282,11 @@ def sig_of(res):
 
 
 def write_replay(prop, case, violation, minimise=True):
-    os.makedirs(os.path.join(VERIF, "replays"), exist_ok=True)
+    rdir = os.environ.get("VERIF_REPLAY_DIR") or os.path.join(VERIF, "replays")
+    os.makedirs(rdir, exist_ok=True)
     sig = violation["sig"]
     h = hashlib.sha256(sig.encode()).hexdigest()[:8]
-    path = os.path.join(VERIF, "replays", "%s-%s-%s.json" % (prop, case.get("seed", 0), h))
+    path = os.path.join(rdir, "%s-%s-%s.json" % (prop, case.get("seed", 0), h))
     doc = {"property": prop, "expected_signature": sig, "detail": violation.get("detail"), "case": case,
            "minimised": False}
     with open(path, "w") as f:
